@@ -141,30 +141,34 @@ Print Assumptions C17_oracle_weak_is_spec.
       offset as a parameter, so theorems 2 and 3 say nothing about --stream (finding "stream-offset"). *)
 
 (* 6. YAML.  go-yaml is external: it reports yaml_mark_t{index, line, column} and advances index/column once per
-      CHARACTER.  gojq's side (yamlParseError.Error): getLineByOffset(contents, Index+1), i.e. Index is used as a
-      0-based BYTE offset.  Proved: the report is correct for byte number Index, and the rendering is `render` of
-      it; hence it is correct for go-yaml's character number Index whenever the text before it is ASCII
-      ([char_offset] = byte offset of a character number).  With multi-byte text before the error it is not
-      (finding "yaml-char-index"). *)
-Theorem C17_yaml_report_is_for_byte : forall swidth contents index, (index < List.length contents)%nat ->
-  pos_ok swidth contents index (getLineByOffset swidth contents (Z.of_nat index + 1)) /\
-  yaml_error_header swidth (codes "<stdin>") contents (Z.of_nat index) =
-    (let '(ls, line, col) := getLineByOffset swidth contents (Z.of_nat index + 1) in
-     render (codes "invalid yaml: ") (codes "<stdin>") contents true (codes "<stdin>") ls line col).
-Proof. exact yaml_report_is_for_byte. Qed.
-Print Assumptions C17_yaml_report_is_for_byte.
+      CHARACTER, so ParserError.Index / UnmarshalError.Index is a 0-based character index.  gojq's side
+      (yamlParseError.Error, current code): a range loop turns it into the byte offset of that character
+      (len(contents) if there is none) and calls getLineByOffset(contents, offset+1).  Proved, for every contents
+      and index: the report is correct for the first byte of CHARACTER number Index ([char_offset], the byte offset
+      of a character number, is the specification side), or for the end of the contents, and the text printed is
+      `render` of it.  Which mark go-yaml reports for which error is go-yaml's business (sampled only). *)
+Theorem C17_yaml_report : forall swidth fname contents index,
+  let o := char_offset contents index in
+  let rep := getLineByOffset swidth contents (yaml_offset contents (Z.of_nat index) + 1) in
+  ((o < List.length contents)%nat -> pos_ok swidth contents o rep) /\
+  ((o >= List.length contents)%nat -> pos_ok_eof swidth contents rep) /\
+  yaml_error_header swidth fname contents (Z.of_nat index) =
+    (let '(ls, line, col) := rep in render (codes "invalid yaml: ") fname contents true fname ls line col).
+Proof. exact yaml_report_correct. Qed.
+Print Assumptions C17_yaml_report.
 
-Theorem C17_yaml_report_ascii : forall swidth contents index, (index < List.length contents)%nat ->
-  forallb is_ascii (firstn index contents) = true ->
-  pos_ok swidth contents (char_offset contents index) (getLineByOffset swidth contents (Z.of_nat index + 1)).
-Proof. exact yaml_report_ascii. Qed.
-Print Assumptions C17_yaml_report_ascii.
+Theorem C17_yaml_ascii_chars_are_bytes : forall contents index, (index <= List.length contents)%nat ->
+  forallb is_ascii (firstn index contents) = true -> char_offset contents index = index.
+Proof. exact char_offset_ascii_text. Qed.
+Print Assumptions C17_yaml_ascii_chars_are_bytes.
 
-Theorem C17_yaml_char_index_refuted : forall swidth,
-  char_offset yaml_wide 9 = 13%nat /\
-  ~ pos_ok swidth yaml_wide (char_offset yaml_wide 9) (getLineByOffset swidth yaml_wide (Z.of_nat 9 + 1)).
-Proof. exact yaml_wide_wrong. Qed.
-Print Assumptions C17_yaml_char_index_refuted.
+(* regression example: the arithmetic before 652e0ad (Index+1 used as a byte offset) on `世界: 1\n  x: 2\n`,
+   go-yaml index 9: reports line 1; the current code reports line 2, excerpt "  x: 2", caret after "  x" *)
+Example C17_yaml_old_arithmetic_wrong : forall swidth,
+  (char_offset yaml_wide 9 = 13%nat /\
+   ~ pos_ok swidth yaml_wide (char_offset yaml_wide 9) (getLineByOffset swidth yaml_wide (Z.of_nat 9 + 1))) /\
+  getLineByOffset swidth yaml_wide (yaml_offset yaml_wide 9 + 1) = (codes "  x: 2", 2, swidth (codes "  x")).
+Proof. intros. split; [apply yaml_wide_wrong|apply yaml_wide_now_right]. Qed.
 
 (* regression example D7: on the reads observed for 164 documents of 100 bytes + {"b": tru } + 1 2 3, the
    arithmetic before e216f69 (whole buffer dropped) reports line 168 with an empty excerpt; the current
